@@ -39,6 +39,7 @@ import (
 	str "github.com/echovault/sugardb/internal/modules/string"
 	"github.com/echovault/sugardb/internal/raft"
 	"github.com/echovault/sugardb/internal/snapshot"
+	"github.com/tidwall/resp"
 	"io"
 	"log"
 	"net"
@@ -509,8 +510,12 @@ func (server *SugarDB) handleConnection(conn net.Conn) {
 		}
 	}()
 
+	// One RESP reader per connection: it frames the byte stream into commands, keeping what belongs to the
+	// next command (pipelining) and waiting for the rest of a command that arrives in several segments.
+	reader := resp.NewReader(r)
+
 	for {
-		message, err := internal.ReadMessage(r)
+		value, _, err := reader.ReadValue()
 
 		if err != nil && errors.Is(err, io.EOF) {
 			// Connection closed
@@ -518,6 +523,12 @@ func (server *SugarDB) handleConnection(conn net.Conn) {
 			break
 		}
 
+		if err != nil {
+			log.Println(err)
+			break
+		}
+
+		message, err := value.MarshalRESP()
 		if err != nil {
 			log.Println(err)
 			break
